@@ -139,7 +139,7 @@ pub fn frame(pool: &NamePool) -> BoxedStrategy<FrameAst> {
 /// Typed traces of the C17 domain: the top level has a throwable or at least one frame; causes always carry
 /// a throwable.
 pub fn trace(pool: &NamePool, max_frames: usize, max_depth: usize) -> BoxedStrategy<TraceAst> {
-    let level = (throwable(pool), vec(frame(pool), 0..=max_frames));
+    let level = (throwable(pool), vec(frame(pool), 0..=max_frames), 0u8..100);
     (
         prop::option::weighted(0.85, throwable(pool)),
         vec(frame(pool), 0..=max_frames),
@@ -150,8 +150,33 @@ pub fn trace(pool: &NamePool, max_frames: usize, max_depth: usize) -> BoxedStrat
             if exc.is_none() && frames.is_empty() {
                 frames.push(spare);
             }
+            // levels are not independent in real traces: a cause often repeats its parent's throwable and/or shares
+            // its bottom frames with it ("... n more"); make such coincidences common
+            let mut levels: Vec<(ThrowableAst, Vec<FrameAst>)> = Vec::new();
+            let mut parent: (Option<ThrowableAst>, Vec<FrameAst>) = (exc.clone(), frames.clone());
+            for (t, fr, dice) in causes {
+                let (mut t, mut fr) = (t, fr);
+                if dice < 8 {
+                    // identical to the parent level
+                    if let Some(pt) = &parent.0 {
+                        t = pt.clone();
+                    }
+                    fr = parent.1.clone();
+                } else if dice < 22 {
+                    // shares the parent's last frame(s)
+                    let k = (dice as usize % 2) + 1;
+                    let tail: Vec<FrameAst> = parent.1.iter().rev().take(k).rev().cloned().collect();
+                    fr.extend(tail);
+                } else if dice < 28 {
+                    if let Some(pt) = &parent.0 {
+                        t = pt.clone();
+                    }
+                }
+                parent = (Some(t.clone()), fr.clone());
+                levels.push((t, fr));
+            }
             let mut cause: Option<Box<TraceAst>> = None;
-            for (t, fr) in causes.into_iter().rev() {
+            for (t, fr) in levels.into_iter().rev() {
                 cause = Some(Box::new(TraceAst { exception: Some(t), frames: fr, cause }));
             }
             TraceAst { exception: exc, frames, cause }
